@@ -708,11 +708,22 @@ def check(prop, tier, seed):
     if level == 'proof' and not names:
         ck.problems.append('zero obligations generated for a proof-level check')
     ck.selftest = None
-    if tier == 'thorough' and names and not ck.problems:
+    tree_changed = any(ck.function_changed(f.get('function')) for f in ck.functions) or any(f.get('sha256') and ck.baseline()['functions'].get(f.get('function')) not in (None, f.get('sha256')) for f in ck.fallbacks)
+    if tier == 'thorough' and names and not ck.problems and tree_changed:
+        # the self-test examines the VERIFIER on the text the proofs were made for; on a tree whose contracted functions differ from the
+        # baseline its verdicts say nothing (a control applied on top of a broken function "fails"): skipped, and said so in the evidence
+        ck.selftest = {'skipped': 'contracted functions differ from the baseline text: the verifier self-test only runs on the baseline text'}
+    elif tier == 'thorough' and names and not ck.problems:
         # verifier self-test: every property-breaking edit of the catalogue must fail an obligation, every negative control must verify
         try:
             from . import mutants
             res = mutants.run_catalogue(prop, verbose=False, jobs=4)
+            # a wrong verdict is re-examined alone (no other solver processes competing for the cores) before it counts
+            for i_, r_ in enumerate(res):
+                if r_['status'] == 'WRONG':
+                    again = mutants.run_catalogue(prop, only={r_['id']}, verbose=False, jobs=1)
+                    if again:
+                        res[i_] = dict(again[0], rerun_alone=True)
             wrong = [r for r in res if r['status'] == 'WRONG']
             ck.selftest = {'mutants_total': len(res), 'killed_or_control_ok': len([r for r in res if r['status'] == 'ok']),
                            'fallback_only': [r['id'] for r in res if r['status'] == 'fallback-only'], 'skipped': [r['id'] for r in res if r['status'].startswith('skipped')],
